@@ -419,3 +419,388 @@ func checkMarshallerContracts(p *core.Prog, r *core.Report, known func(rule, con
 	}
 	_ = token.ADD
 }
+
+// checkAncestorOrderIndependent (C06.R2): the identifier is a function of the identifiers of the ancestors, not of
+// where they stand in the module list: the ancestors' signatures are written in an order that does not come from module
+// indexes (sorted, or AncestorsOf itself sorts by something list-independent).  Index order makes the identifier of a
+// module change when the list is reordered — e.g. when two imported packages are merged in the other order (D30).
+func checkAncestorOrderIndependent(p *core.Prog, r *core.Report) {
+	fn := p.Func(pkgMani, "ModuleHashes.hashModule")
+	anc := p.FuncObj(pkgMani, "ModuleGraph.AncestorsOf")
+	hm := p.FuncObj(pkgMani, "ModuleHashes.HashModule")
+	r.Touch(core.FuncName(fn))
+	sorted := func(f *ssa.Function) bool {
+		found := false
+		core.Instrs(f, func(in ssa.Instruction) {
+			if c := core.CalleeOf(in); c != nil && c.Pkg() != nil && (c.Pkg().Path() == "sort" || c.Pkg().Path() == "slices") {
+				switch c.Name() {
+				case "Slice", "SliceStable", "Strings", "Sort", "SortFunc", "SortStableFunc", "Stable":
+					found = true
+				}
+			}
+		})
+		return found
+	}
+	// the loop that hashes the ancestors: ranges over the result of AncestorsOf and writes HashModule(ancestor) straight
+	// into the buffer
+	direct := false
+	for _, l := range core.Loops(fn) {
+		overAnc, writes := false, false
+		for b := range l.Body {
+			for _, in := range b.Instrs {
+				if c := core.CalleeOf(in); c == hm {
+					writes = true
+				}
+				for _, op := range in.Operands(nil) {
+					if *op == nil {
+						continue
+					}
+					if core.Trace(*op, 0).HasCall(anc) {
+						overAnc = true
+					}
+				}
+			}
+		}
+		if overAnc && writes {
+			direct = true
+		}
+	}
+	if !direct {
+		core.Undecide("hashModule: loop hashing the ancestors not found")
+	}
+	ok := sorted(fn) || sorted(p.Func(pkgMani, "ModuleGraph.AncestorsOf"))
+	r.Check(ok, "C06.R2", "hashModule/ancestor-order-independent", "the signatures of the ancestors enter the hash in an order that does not depend on the position of the modules in the list (they are sorted before being written)", "the ancestors are hashed in the order AncestorsOf returns them, which is the order of the module list: reordering the list (or the imports) changes the identifier", p.Pos(fn.Pos()))
+}
+
+// checkGraphEdgesOnlyForModuleInputs (C14.R6): in the module graph an input makes an edge only when it designates a
+// module — a map or a store input.  The text of a params value or of a source type is free: matching it against module
+// names pulls unrelated modules (and their stores) into the execution and into the hash, and a value equal to the
+// module's own name is refused as a cycle (D29).
+func checkGraphEdgesOnlyForModuleInputs(p *core.Prog, r *core.Report, rule string) {
+	fn := p.Func(pkgMani, "NewModuleGraph")
+	r.Touch(core.FuncName(fn))
+	// success edges of `input.GetMap() != nil` / `input.GetStore() != nil`
+	var modEdges []core.Edge
+	core.Instrs(fn, func(in ssa.Instruction) {
+		ifi, ok := in.(*ssa.If)
+		if !ok {
+			return
+		}
+		c, neg := core.StripNot(ifi.Cond)
+		bo, ok := c.(*ssa.BinOp)
+		if !ok || (bo.Op != token.EQL && bo.Op != token.NEQ) {
+			return
+		}
+		if k, ok := bo.Y.(*ssa.Const); !ok || !k.IsNil() {
+			return
+		}
+		call, ok := bo.X.(*ssa.Call)
+		if !ok {
+			return
+		}
+		cl := core.CommonCallee(call.Common())
+		if cl == nil || (cl.Name() != "GetMap" && cl.Name() != "GetStore") {
+			return
+		}
+		idx := 0
+		if (bo.Op == token.EQL) != neg {
+			idx = 1
+		}
+		modEdges = append(modEdges, core.Edge{From: ifi.Block(), Idx: idx})
+	})
+	inputsF := core.FieldOf(p.Named(pkgPBV1, "Module"), "Inputs")
+	var loop *core.Loop
+	for _, l := range core.LoopIndexing(fn, func(v ssa.Value) bool { f, _ := core.LoadedField(v); return f == inputsF }) {
+		loop = l
+	}
+	if loop == nil || len(modEdges) < 2 {
+		core.Undecide("NewModuleGraph: loop over Module.Inputs (%v) or the GetMap/GetStore tests (%d) not found", loop != nil, len(modEdges))
+	}
+	n, bad := 0, 0
+	for b := range loop.Body {
+		for _, in := range b.Instrs {
+			c := core.CalleeOf(in)
+			if c == nil || c.Name() != "AddCost" {
+				continue
+			}
+			n++
+			// (1) directly: unreachable within the iteration once the map/store success edges are cut
+			q := core.PathQuery{Fn: fn, CutEdge: func(e core.Edge) bool { return containsEdge(modEdges, e) }, CutInstr: func(x ssa.Instruction) bool { return x == loop.Header.Instrs[0] }}
+			start := loop.Header
+			_, reach := q.CanReach(firstBodyInstr(loop), func(x ssa.Instruction) bool { return x == in })
+			_ = start
+			if !reach {
+				continue
+			}
+			// (2) through a flag: the call sits behind `if flag`, flag being a phi whose true-valued edges come only from blocks
+			// that are themselves behind a map/store success edge
+			okFlag := false
+			for _, pred := range allDominatingIfs(in.Block()) {
+				ph, ok := pred.cond.(*ssa.Phi)
+				if !ok || !pred.trueEdge {
+					continue
+				}
+				all := true
+				nTrue := 0
+				for i, e := range ph.Edges {
+					k, isK := e.(*ssa.Const)
+					if !isK {
+						all = false
+						continue
+					}
+					if k.Value != nil && k.Value.ExactString() == "true" {
+						nTrue++
+						from := ph.Block().Preds[i]
+						q2 := core.PathQuery{Fn: fn, CutEdge: func(e core.Edge) bool { return containsEdge(modEdges, e) }, CutInstr: func(x ssa.Instruction) bool { return x == loop.Header.Instrs[0] }}
+						if _, r2 := q2.CanReach(firstBodyInstr(loop), func(x ssa.Instruction) bool { return x.Block() == from }); r2 {
+							all = false
+						}
+					}
+				}
+				if all && nTrue > 0 {
+					okFlag = true
+				}
+			}
+			if !okFlag {
+				bad++
+			}
+		}
+	}
+	r.Check(n > 0 && bad == 0, rule, "NewModuleGraph/edges-only-for-module-inputs", "an input adds a dependency edge only when it is a map or a store input (the only kinds that designate a module); the text of a params value or of a source type is never looked up as a module name", fmt.Sprintf("%d edge insertions in the loop over the inputs, %d reachable for an input that is neither map nor store", n, bad), p.Pos(fn.Pos()))
+}
+
+func firstBodyInstr(l *core.Loop) ssa.Instruction {
+	for _, s := range l.Header.Succs {
+		if l.Body[s] && s != l.Header {
+			return s.Instrs[0]
+		}
+	}
+	return l.Header.Instrs[0]
+}
+
+type domIf struct {
+	cond     ssa.Value
+	trueEdge bool
+}
+
+// allDominatingIfs: the conditions of the Ifs whose true (or false) successor dominates b.
+func allDominatingIfs(b *ssa.BasicBlock) []domIf {
+	var out []domIf
+	for _, blk := range b.Parent().Blocks {
+		ifi, ok := blk.Instrs[len(blk.Instrs)-1].(*ssa.If)
+		if !ok {
+			continue
+		}
+		if blk.Succs[0].Dominates(b) && len(blk.Succs[0].Preds) == 1 {
+			out = append(out, domIf{ifi.Cond, true})
+		}
+		if blk.Succs[1].Dominates(b) && len(blk.Succs[1].Preds) == 1 {
+			out = append(out, domIf{ifi.Cond, false})
+		}
+	}
+	return out
+}
+
+// checkPendingUndoSentOnce (C03.R5, C04.R2): the undo signal computed when a request resumes from a forked cursor is
+// sent once: every send of Pipeline.pendingUndoMessage is followed, on every path that goes on, by the field being
+// cleared.  Sent a second time in front of the first linear block, it makes the client drop the blocks streamed from the
+// cached outputs in between (D31).
+func checkPendingUndoSentOnce(p *core.Prog, r *core.Report, rule string) {
+	f := p.Field(pkgPipe, "Pipeline", "pendingUndoMessage")
+	n := 0
+	for _, fn := range p.RepoFunctions() {
+		if p.IsTestFunc(fn) || fn.Pkg == nil || !strings.HasSuffix(fn.Pkg.Pkg.Path(), "/"+pkgPipe) {
+			continue
+		}
+		core.Instrs(fn, func(in ssa.Instruction) {
+			ci, ok := in.(ssa.CallInstruction)
+			if !ok {
+				return
+			}
+			sends := false
+			for _, a := range ci.Common().Args {
+				if mi, ok := a.(*ssa.MakeInterface); ok {
+					a = mi.X
+				}
+				if lf, _ := core.LoadedField(core.SkipConv(a)); lf == f {
+					sends = true
+				}
+			}
+			if !sends {
+				return
+			}
+			n++
+			r.Touch(core.FuncName(fn))
+			isClear := func(x ssa.Instruction) bool {
+				for _, w := range core.FieldWritesIn(fn, f) {
+					if w.Instr == x && w.Kind == core.WAssign {
+						if k, ok := w.Value.(*ssa.Const); ok && k.IsNil() {
+							return true
+						}
+					}
+				}
+				return false
+			}
+			// exits that matter: success returns (an error return ends the request)
+			hit, ok2 := core.MustReachAfter(fn, in, isClear, func(x ssa.Instruction) bool {
+				rt, isRet := x.(*ssa.Return)
+				if !isRet {
+					return false
+				}
+				if len(rt.Results) == 0 {
+					return true
+				}
+				return core.ReturnsNilError(rt)
+			})
+			d := ""
+			if !ok2 {
+				d = "a success return is reachable after the send without clearing the field: " + p.Pos(core.InstrPos(hit))
+			}
+			r.Check(ok2, rule, "pendingUndoMessage/cleared-after-send@"+core.FuncName(fn), "the pending undo signal of a forked cursor reaches the client once: after it is sent the field is cleared on every path that goes on", d, p.Pos(in.Pos()))
+		})
+	}
+	if n < 2 {
+		core.Undecide("only %d sends of Pipeline.pendingUndoMessage found (expected runParallelProcess and handleStepNew)", n)
+	}
+}
+
+// checkGateAndUndo (C04.R2, C03.R5): nothing reaches a client that came without cursor before its start block: an undo
+// step opens the output gate only for a request resumed from a cursor (blockTriggersGate answers its flag parameter, which
+// newGate derives from RequestDetails.ResolvedCursor), and handleStepUndo sends no signal while the gate is closed (D32);
+// the engine's buffer of the undone block is dropped (D33).
+func checkGateAndUndo(p *core.Prog, r *core.Report, rule string) {
+	btg := p.Func(pkgPipe, "blockTriggersGate")
+	r.Touch(core.FuncName(btg))
+	// returns reachable behind `step.Matches(StepUndo)`: none is the constant true
+	var undoEdges []core.Edge
+	core.Instrs(btg, func(in ssa.Instruction) {
+		ifi, ok := in.(*ssa.If)
+		if !ok {
+			return
+		}
+		c, neg := core.StripNot(ifi.Cond)
+		call, ok := c.(*ssa.Call)
+		if !ok {
+			return
+		}
+		if cl := core.CommonCallee(call.Common()); cl == nil || cl.Name() != "Matches" {
+			return
+		}
+		k, ok := call.Call.Args[len(call.Call.Args)-1].(*ssa.Const)
+		if !ok || k.Value == nil || k.Value.ExactString() != "2" { // bstream.StepUndo
+			return
+		}
+		idx := 0
+		if neg {
+			idx = 1
+		}
+		undoEdges = append(undoEdges, core.Edge{From: ifi.Block(), Idx: idx})
+	})
+	okUndo := len(undoEdges) > 0
+	detail := ""
+	for _, e := range undoEdges {
+		b := e.From.Succs[e.Idx]
+		core.Instrs(btg, func(in ssa.Instruction) {
+			rt, ok := in.(*ssa.Return)
+			if !ok || !reachFromBlock(btg, b, in) {
+				return
+			}
+			// only returns that are decided by the undo branch itself: the block's own return
+			if in.Block() != b {
+				return
+			}
+			if k, ok := rt.Results[0].(*ssa.Const); ok && k.Value != nil && k.Value.ExactString() == "true" {
+				okUndo = false
+				detail = "an undo step opens the gate unconditionally"
+			}
+			if prm, ok := rt.Results[0].(*ssa.Parameter); ok {
+				// the flag: its value at the call site must come from the gate's cursor flag
+				_ = prm
+			}
+		})
+	}
+	r.Check(okUndo, rule, "blockTriggersGate/undo-needs-cursor", "an undo step opens the output gate only when the request was resumed from a cursor (the client then holds blocks); for a request without cursor an undo below the start block leaves the gate closed", detail, p.Pos(btg.Pos()))
+	// the flag comes from the resolved cursor
+	ng := p.Func(pkgPipe, "newGate")
+	r.Touch(core.FuncName(ng))
+	okFlag := false
+	gt := p.Named(pkgPipe, "gate")
+	for _, al := range core.AllocsOf(ng, gt) {
+		for name, vals := range core.LiteralFields(al) {
+			for _, v := range vals {
+				if hasFieldNamed(core.Trace(v, 0), "ResolvedCursor") && name != "startBlockNum" {
+					okFlag = true
+				}
+			}
+		}
+	}
+	r.Check(okFlag, rule, "newGate/undo-flag-from-cursor", "whether an undo may open the gate is derived from the request's resolved cursor", "no field of the gate is computed from RequestDetails.ResolvedCursor", p.Pos(ng.Pos()))
+	// handleStepUndo: the signal is sent only when the gate is open; the stores are reverted and the buffer dropped regardless
+	hu := p.Func(pkgPipe, "Pipeline.handleStepUndo")
+	r.Touch(core.FuncName(hu))
+	sso := p.FuncObj(pkgPipe, "gate.shouldSendOutputs")
+	var open []core.Edge
+	core.Instrs(hu, func(in ssa.Instruction) {
+		ifi, ok := in.(*ssa.If)
+		if !ok {
+			return
+		}
+		c, neg := core.StripNot(ifi.Cond)
+		call, ok := c.(*ssa.Call)
+		if !ok || core.CommonCallee(call.Common()) != sso {
+			return
+		}
+		idx := 0
+		if neg {
+			idx = 1
+		}
+		open = append(open, core.Edge{From: ifi.Block(), Idx: idx})
+	})
+	isSend := func(in ssa.Instruction) bool {
+		c, ok := in.(*ssa.Call)
+		if !ok {
+			return false
+		}
+		if f, _ := core.LoadedField(c.Call.Value); f != nil && f.Name() == "respFunc" {
+			return true
+		}
+		return false
+	}
+	q := core.PathQuery{Fn: hu, CutEdge: func(e core.Edge) bool { return containsEdge(open, e) }}
+	_, reach := q.CanReach(nil, isSend)
+	nSend := len(core.FindInstrs(hu, isSend))
+	r.Check(len(open) > 0 && nSend > 0 && !reach, rule, "handleStepUndo/signal-behind-gate", "an undo signal is sent only once the output gate is open (a client that received nothing holds no block an undo could invalidate)", fmt.Sprintf("%d sends; reachable with the gate closed: %v", nSend, reach), p.Pos(hu.Pos()))
+	// the revert of the stores does not depend on the gate
+	hUndo := p.FuncObj(pkgPipe, "ForkHandler.handleUndo")
+	engUndo := p.FuncObj(pkgCache, "Engine.HandleUndo")
+	for _, w := range []struct {
+		name string
+		obj  *types.Func
+	}{{"stores-reverted", hUndo}, {"buffer-dropped", engUndo}} {
+		calls := core.FindInstrs(hu, core.IsCallTo(w.obj))
+		okAll := len(calls) > 0
+		for _, c := range calls {
+			// reached on every path from entry: not behind the gate test
+			if _, must := core.MustPassBefore(hu, func(x ssa.Instruction) bool { return x == c }, func(x ssa.Instruction) bool {
+				_, isIf := x.(*ssa.If)
+				return isIf && containsEdgeFrom(open, x.Block())
+			}); !must {
+				okAll = false
+			}
+		}
+		desc := "every undo step reverts the stores, whatever the state of the gate"
+		if w.name == "buffer-dropped" {
+			desc = "every undo step drops the engine's output buffer of the undone block (Engine.HandleUndo), whatever the state of the gate"
+		}
+		r.Check(okAll, rule, "handleStepUndo/"+w.name, desc, fmt.Sprintf("%d calls; before the gate test on every path: %v", len(calls), okAll), p.Pos(hu.Pos()))
+	}
+}
+
+func containsEdgeFrom(es []core.Edge, b *ssa.BasicBlock) bool {
+	for _, e := range es {
+		if e.From == b {
+			return true
+		}
+	}
+	return false
+}
